@@ -14,6 +14,7 @@
  * limitations under the License.
  */
 
+use crate::entities::json::check_for_reserved_keys;
 use crate::entities::json::{
     err::JsonSerializationError, ContextJsonDeserializationError, ContextJsonParser,
     NullContextSchema,
@@ -424,6 +425,12 @@ impl Context {
 
     /// Convert this `Context` to a JSON value
     pub fn to_json_value(&self) -> Result<serde_json::Value, JsonSerializationError> {
+        // The context is itself a record: like any nested record, it cannot be
+        // represented in JSON if one of its keys is a reserved (escape) key.
+        match self {
+            Self::Value(record) => check_for_reserved_keys(record.keys())?,
+            Self::RestrictedResidual(record) => check_for_reserved_keys(record.keys())?,
+        }
         match self {
             Self::Value(record) => record
                 .iter()
